@@ -30,6 +30,10 @@ func corpusOptFor(c *core.Ctx) corpusOpt {
 
 var corpusPolicies = []gen.Policy{{FullParens: false, StmtSep: "\n"}, {FullParens: true, StmtSep: "\n"}}
 
+// families whose texts are valid programs by construction: a parser that rejects one is wrong (for the other
+// families a rejected text simply is not a case)
+var corpusMustAccept = map[string]bool{"wide": true, "op3": true, "op4": true, "dupkeys": true}
+
 // statement kinds for the adjacency family
 var adjStmts = []string{
 	"a", "1", ".5", `"s"`, "f(1)", "a[1]", "a.k", "-a", "!a", "++a", "+a", "^a", "a++", "a + b", "a = 1", "[1]", "{1:2}", "x => x", "(x, y) => x", "() => 1",
